@@ -1,11 +1,16 @@
 """Anchor resolution for the payment lifecycle coroutine (LC), the handler (HH) and the helper
 functions around the payments table.  Only type/trait/effect based anchors - never local fn names."""
 import re
+import names as NM
 from mir import Call, canon, loc, strip, walk, alts, show
 import lib
 
-TABLE_TY = r"std::collections::HashMap<[^,]*[Ss]ha256[^,]*, htlc_manager::PaymentState>"
-GUARD_TY = r"^tokio::sync::MutexGuard<'_, " + TABLE_TY
+def table_ty():
+    return r"std::collections::HashMap<[^,]*[Ss]ha256[^,]*, " + re.escape(NM.PS()) + ">"
+
+
+def guard_ty():
+    return r"^tokio::sync::MutexGuard<'_, " + table_ty()
 ONESHOT_SENDER = "tokio::sync::oneshot::Sender<messages::HtlcAcceptedResponse>"
 
 
@@ -26,7 +31,7 @@ def resolve_anchors(F, X, rep=None, rid="anchors"):
     """returns an Anchors object; missing anchors are None (callers fail closed via rep.anchor)"""
     A = Anchors()
     # --- helper functions by effect
-    g = _groups_with(F, lambda c: c.name == "std::collections::HashMap::remove" and "htlc_manager::PaymentState" in c.full)
+    g = _groups_with(F, lambda c: c.name == "std::collections::HashMap::remove" and NM.PS() in c.full)
     A.resolve_fns = sorted(g)           # fns removing the table entry ("resolve")
     g = _groups_with(F, lambda c: c.name == "std::vec::Vec::pop" and ONESHOT_SENDER in c.full)
     A.drain_fns = sorted(g)
@@ -51,7 +56,7 @@ def resolve_anchors(F, X, rep=None, rid="anchors"):
     # --- HH
     hhs = []
     for b in F.code_bodies():
-        cs = [c for c in b.calls if c.name == "std::collections::HashMap::entry" and "htlc_manager::PaymentState" in c.full]
+        cs = [c for c in b.calls if c.name == "std::collections::HashMap::entry" and NM.PS() in c.full]
         if cs:
             hhs.append(b)
     A.hh = hhs[0] if len(hhs) == 1 else None
